@@ -750,6 +750,9 @@ impl<'a> Dec<'a> {
             S::Set(e) => {
                 let n = self.compact(4)? as u64;
                 if e.is_empty() {
+                    if self.raw {
+                        return Ok(V::Rep(n, Box::new(e.empty_value())));
+                    }
                     return Ok(V::Seq(if n == 0 { vec![] } else { vec![e.empty_value()] }));
                 }
                 let mut items = Vec::new();
@@ -765,6 +768,9 @@ impl<'a> Dec<'a> {
             S::Map(k, val) => {
                 let n = self.compact(4)? as u64;
                 if k.is_empty() && val.is_empty() {
+                    if self.raw {
+                        return Ok(V::Rep(n, Box::new(V::Tuple(vec![k.empty_value(), val.empty_value()]))));
+                    }
                     return Ok(V::Map(if n == 0 { vec![] } else { vec![(k.empty_value(), val.empty_value())] }));
                 }
                 if self.raw {
